@@ -122,10 +122,136 @@ pub fn enc_ctl(args: &[&str]) -> String {
     }
 }
 
-pub fn cmp(_args: &[&str]) -> String {
-    let _ = unhex;
-    "TODO".into()
+fn show_ty(t: &Type) -> String {
+    match t {
+        Type::Bool(None) => "bool?".into(),
+        Type::Bool(Some(b)) => format!("bool{}", *b as u8),
+        Type::Num(None) => "num?".into(),
+        Type::Num(Some(n)) => format!("num{}", n),
+        Type::Name(s) => format!("name{}", hex(s.as_bytes())),
+        Type::None => "none".into(),
+    }
 }
-pub fn ast(_args: &[&str]) -> String {
-    "TODO".into()
+
+pub fn show_reg(r: &Reg) -> String {
+    match r {
+        Reg::Control(i, t, v) => format!("C{}{}:{}", i, if *v { "v" } else { "n" }, show_ty(t)),
+        Reg::Report(i, t, v) => format!("R{}{}:{}", i, if *v { "v" } else { "n" }, show_ty(t)),
+        Reg::Implicit(i, t) => format!("I{}:{}", i, show_ty(t)),
+        Reg::Local(i, t) => format!("L{}:{}", i, show_ty(t)),
+        Reg::Primitive(i, t) => format!("P{}:{}", i, show_ty(t)),
+        Reg::Tmp(i, t) => format!("T{}:{}", i, show_ty(t)),
+        Reg::ImmNum(n) => format!("N{}", n),
+        Reg::ImmBool(b) => format!("B{}", *b as u8),
+        Reg::None => "X".into(),
+    }
+}
+
+/// `namehex=val;namehex=val` -> owned pairs (names must be valid UTF-8)
+pub fn parse_named_updates(s: &str) -> Option<Vec<(String, u32)>> {
+    if s == "-" {
+        return Some(vec![]);
+    }
+    s.split(';')
+        .map(|t| {
+            let (n, v) = t.split_once('=')?;
+            Some((String::from_utf8(unhex(n)?).ok()?, v.parse().ok()?))
+        })
+        .collect()
+}
+
+/// CMP <srchex> <updates|-> <names|->  ->  OK <imagehex> <reg>;<reg>…  | ERR | PANIC
+pub fn cmp(args: &[&str]) -> String {
+    if args.len() != 3 {
+        return "BADARG".into();
+    }
+    let src = match unhex(args[0]) {
+        Some(s) => s,
+        None => return "BADARG".into(),
+    };
+    let upd = match parse_named_updates(args[1]) {
+        Some(u) => u,
+        None => return "BADARG".into(),
+    };
+    let upd_ref: Vec<(&str, u32)> = upd.iter().map(|(n, v)| (n.as_str(), *v)).collect();
+    let names: Vec<String> = if args[2] == "-" {
+        vec![]
+    } else {
+        match args[2].split(';').map(|h| unhex(h).and_then(|b| String::from_utf8(b).ok())).collect() {
+            Some(n) => n,
+            None => return "BADARG".into(),
+        }
+    };
+    match portus::lang::compile_and_serialize(&src, &upd_ref) {
+        Ok((img, sc)) => {
+            let regs: Vec<String> = names
+                .iter()
+                .map(|n| sc.get(n).map(show_reg).unwrap_or_else(|| "?".into()))
+                .collect();
+            format!("OK {} {}", hex(&img), if regs.is_empty() { "-".to_string() } else { regs.join(";") })
+        }
+        Err(_) => "ERR".into(),
+    }
+}
+
+/// replace every Rust `Debug` string literal by `"<hex of its UTF-8>"`
+fn canon_debug(d: &str) -> String {
+    let mut out = String::new();
+    let cs: Vec<char> = d.chars().collect();
+    let mut i = 0;
+    while i < cs.len() {
+        if cs[i] == '"' {
+            let mut s = String::new();
+            i += 1;
+            while i < cs.len() && cs[i] != '"' {
+                if cs[i] == '\\' && i + 1 < cs.len() {
+                    i += 1;
+                    match cs[i] {
+                        'n' => s.push('\n'),
+                        't' => s.push('\t'),
+                        'r' => s.push('\r'),
+                        '0' => s.push('\0'),
+                        'u' => {
+                            // \u{XXXX}
+                            let mut j = i + 2;
+                            let mut v = 0u32;
+                            while j < cs.len() && cs[j] != '}' {
+                                v = v * 16 + cs[j].to_digit(16).unwrap_or(0);
+                                j += 1;
+                            }
+                            s.push(char::from_u32(v).unwrap_or('?'));
+                            i = j;
+                        }
+                        c => s.push(c),
+                    }
+                } else {
+                    s.push(cs[i]);
+                }
+                i += 1;
+            }
+            out.push('"');
+            out.push_str(&hex(s.as_bytes()));
+            out.push('"');
+            i += 1;
+        } else {
+            out.push(cs[i]);
+            i += 1;
+        }
+    }
+    out.replace(' ', "")
+}
+
+/// AST <srchex> -> OK <canonical Debug of Prog, spaces removed> | ERR | PANIC
+pub fn ast(args: &[&str]) -> String {
+    if args.len() != 1 {
+        return "BADARG".into();
+    }
+    let src = match unhex(args[0]).and_then(|b| String::from_utf8(b).ok()) {
+        Some(s) => s,
+        None => return "SKIP".into(),
+    };
+    match portus::lang::Prog::new_with_scope(&src) {
+        Ok((p, _)) => format!("OK {}", canon_debug(&format!("{:?}", p))),
+        Err(_) => "ERR".into(),
+    }
 }
